@@ -8,6 +8,7 @@ import (
 	"errors"
 	"math"
 	"strconv"
+	"strings"
 )
 
 // AmountUnit describes a method of converting an Amount to something
@@ -91,6 +92,11 @@ func NewAmount(f float64) (Amount, error) {
 // ToUnit converts a monetary amount counted in bitcoin base units to a
 // floating point value representing an amount of bitcoin.
 func (a Amount) ToUnit(u AmountUnit) float64 {
+	if exp := int(u + 8); exp < 0 {
+		// 10^exp is not representable for negative exp; multiply by the
+		// exact positive power instead of dividing by an inexact one.
+		return float64(a) * math.Pow10(-exp)
+	}
 	return float64(a) / math.Pow10(int(u+8))
 }
 
@@ -105,6 +111,15 @@ func (a Amount) ToBCH() float64 {
 // the units with SI notation, or "Satoshi" for the base unit.
 func (a Amount) Format(u AmountUnit) string {
 	units := " " + u.String()
+	if exp := -int(u + 8); exp > 0 {
+		// Units below the satoshi: the value is the integer a*10^exp, which
+		// a float64 cannot always hold, so format it from the integer.
+		s := strconv.FormatInt(int64(a), 10)
+		if a != 0 {
+			s += strings.Repeat("0", exp)
+		}
+		return s + "." + strings.Repeat("0", exp) + units
+	}
 	return strconv.FormatFloat(a.ToUnit(u), 'f', -int(u+8), 64) + units
 }
 
